@@ -279,7 +279,7 @@ struct Gen {
       else if (u < 0.68) op("tells");
       else if (u < 0.78) op("info").set("i", (int64_t)g.range(-2, sr.nlinks + 1));
       else if (u < 0.86) op("halfrate").set("flag", (int64_t)g.below(2));
-      else if (u < 0.89 && seekable) { Rec &r = op("crosslap"); r.set("a", pick_pos()); if (g.chance(0.6)) r.set("hrb", (int64_t)g.below(2)); }
+      else if (u < 0.89 && seekable) { Rec &r = op("crosslap"); r.set("a", pick_pos()); if (g.chance(0.6)) r.set("hrb", (int64_t)g.below(2)); if (g.chance(0.4)) r.set("rep", (int64_t)g.range(2, 5)); }
       else if (u < 0.92) linear_read(true);
       else { Rec &r = op("pcm_seek"); r.set("a", pick_pos()); }
     }
